@@ -76,7 +76,11 @@ pub fn gen(rng: &mut Rng, size: usize) -> Value {
     let nslots = rng.below(cap) as usize;
     let startup: Vec<u8> = (0..1 + rng.below(20)).map(|_| rng.below(256) as u8).collect();
     let slots: Vec<Option<Vec<u8>>> = (0..nslots).map(|_| if rng.chance(1, 4) { None } else {
-        Some((0..rng.below(12)).map(|_| rng.below(256) as u8).collect()) }).collect();
+        let mut p: Vec<u8> = (0..rng.below(12)).map(|_| rng.below(256) as u8).collect();
+        // payloads that begin or end with bytes that mean something elsewhere (BOMs, the bundle magic, NUL, a line end)
+        if rng.chance(1, 5) { let pre: &[u8] = *rng.pick(&[&[0xEFu8, 0xBB, 0xBF][..], &[0xFF, 0xFE][..], &[0xFE, 0xFF][..], &[0xE5, 0xD1, 0x0B, 0xFB][..], &[0][..], &[b'\n'][..]]);
+                              if rng.chance(1, 2) { let mut q = pre.to_vec(); q.extend(&p); p = q; } else { p.extend(pre); } }
+        Some(p) }).collect();
     let mut order: Vec<usize> = (0..nslots).filter(|&i| slots[i].is_some()).collect();
     crate::c02::shuffle(rng, &mut order);
     let mut rel = vec![0u32; nslots];
